@@ -48,6 +48,13 @@ impl Vm {
                         self.ip,
                         self.acc.clone(),
                     ));
+                    // Abandon the failed computation: later evaluations start from
+                    // the same registers and empty stack as after a success.
+                    self.stack.clear();
+                    *self.stack.get_sp_mut() = 0;
+                    self.bp = 0;
+                    self.ep = usize::MAX;
+                    self.acc = VCell::Undefined;
                     return Err(e);
                 }
             }
